@@ -845,6 +845,11 @@ func (w *walker) stmt(s ast.Stmt) {
 			w.emit(fmt.Sprintf(".deferCall %q", s.Sel.Name))
 			return
 		}
+		// a deferred closure in a function whose receiver is not a *Node cannot touch the node fields the
+		// facts are about (those are only reached through the receiver): book-keeping such as a depth counter
+		if _, ok := unparen(c.Fun).(*ast.FuncLit); ok && !w.nodeRecv && len(c.Args) == 0 {
+			return
+		}
 		die(x.Pos(), "defer of %s in %s", src(c.Fun), w.fname)
 	case *ast.BranchStmt:
 		switch x.Tok {
